@@ -240,3 +240,67 @@ func verifHarness_C20_consumer() {
 	vAssert(rep.n == wantReports, "second-close-reports-nothing")
 	vReach()
 }
+
+// C20: SendMessages (the batch call) consumes one expectation per message in order; a failing
+// checker or a scripted failure stops the batch with that error; too few expectations are
+// reported; topic partition overrides are what the partitioner is offered.
+func verifHarness_C20_syncSendMessages() {
+	rep := &vReporter{}
+	conf := sarama.NewConfig()
+	part := &vPartitioner{}
+	conf.Producer.Partitioner = func(topic string) sarama.Partitioner { return part }
+	sp := NewSyncProducer(rep, conf)
+	nparts := vInt32("topicPartitions")
+	vAssume(nparts >= 1 && nparts <= 64)
+	sp.SetPartitions(map[string]int32{"t": nparts})
+	sp.SetDefaultPartitions(7)
+	E := vChoose("expectations", 4)
+	M := 1 + vChoose("messages", 3)
+	script := vScript(E)
+	for _, e := range script {
+		if e.succeed {
+			sp.ExpectSendMessageWithMessageCheckerFunctionAndSucceed(vChecker(e.checker))
+		} else {
+			sp.ExpectSendMessageWithMessageCheckerFunctionAndFail(vChecker(e.checker), vErrScripted)
+		}
+	}
+	var msgs []*sarama.ProducerMessage
+	for i := 0; i < M; i++ {
+		topic := "t"
+		if i == 1 {
+			topic = "other" // falls back to the default partition count
+		}
+		msgs = append(msgs, &sarama.ProducerMessage{Topic: topic, Value: sarama.StringEncoder("v")})
+	}
+	err := sp.SendMessages(msgs)
+	if M > E {
+		vAssert(err != nil && rep.n == 1, "too-few-expectations-reported")
+		vAssert(len(sp.expectations) == E, "rejected-batch-consumes-no-expectation")
+	} else {
+		// the first message whose expectation fails (checker or scripted) ends the batch
+		failAt := -1
+		for i := 0; i < M; i++ {
+			if script[i].checker == 2 || !script[i].succeed {
+				failAt = i
+				break
+			}
+		}
+		if failAt < 0 {
+			vAssert(err == nil && rep.n == 0, "all-succeed")
+			for i, m := range msgs {
+				vAssert(m.Offset == int64(i+1), "offsets-increase-by-one")
+			}
+		} else {
+			if script[failAt].checker == 2 {
+				vAssert(err == vErrChecker && rep.n == 1, "failing-checker-stops-the-batch-and-is-reported")
+			} else {
+				vAssert(err == vErrScripted && rep.n == 0, "scripted-failure-stops-the-batch")
+			}
+			for i := 0; i < failAt; i++ {
+				vAssert(msgs[i].Offset == int64(i+1), "earlier-messages-keep-their-offsets")
+			}
+		}
+		vAssert(len(sp.expectations) == E-M, "one-expectation-per-message-consumed")
+	}
+	vReach()
+}
